@@ -147,7 +147,7 @@ func Eval(w *wm.World, x *fw.Rec) {
 	x.Outcome(tr.OutcomeKey())
 	x.Describe(func() any { return map[string]any{"world": w.Brief(), "manifests": w.YAMLDocs()} })
 	if tr.Err != nil {
-		if strings.Contains(tr.Err.Error(), "cannot convert named port for an IP destination") && ref.NamedPortOnIPPossible() {
+		if wm.IsNamedPortOnIPErr(tr.Err) && ref.NamedPortOnIPPossible() {
 			x.Count("documented_named_port_on_ip_error", 1)
 			return
 		}
